@@ -17,6 +17,8 @@
   (`map_refinement_view`: make_global never touches a value, a view with base `b` acts at `b ++ k`) and
   (`map_refinement_items`) for the item arrays of the private C++ configuration `mpt::config::root`
   (`Impl/ConfigItems.lean`).
+  `assign_refused_pure`: a refused assignment (value without text form, over-long element) leaves the tree as it
+  was, on every front end.
   Not proved (correspondence run only): remove through a view with an empty path (mpt_node_clear of the base),
   mpt_path_set with an explicit length, paths with a non-zero offset handed to the builders.
 -/
@@ -273,5 +275,90 @@ example : ∀ l', configAssign [.mk [115] none [.mk [111] (some [102]) []]] [[11
     | some l2 => simp [hn] at h; simp [h]
   rw [(get_after_set _ _ _ _ hk).2 [[115], [111]] (by decide), make_global_keeps_values]
   simp [valueAt, findExact, locate, CNode.name, CNode.kids, CNode.value]
+
+/-! ### refused assignments -/
+
+/-- A refused assignment changes nothing — `mpt_node_assign` (the value is made and the element lengths are checked
+    before any node is linked), an assignment through the global configuration or a sub-tree view (value and path
+    are checked before `make_global` creates the base) and `config::root::assign` on the item arrays: whenever the
+    call does not succeed, the tree (hence every value and the set of existing elements) is the one before. -/
+theorem assign_refused_pure :
+    (∀ (l l' : List CNode) (k : Key) (v : AVal), nodeAssignE l k v = (l', false) → l' = l) ∧
+    (∀ (l l' : List CNode) (b k : Key) (v : AVal) (r : Res Unit), configAssignE l b k v = (l', r) → r ≠ .ok () → l' = l) ∧
+    (∀ (l l' : List Item) (k : Key) (v : Value), itemAssignE l k v = (l', false) → l' = l) := by
+  refine ⟨?_, ?_, ?_⟩
+  · intro l l' k v h
+    simp only [nodeAssignE] at h
+    cases v with
+    | noText => simp at h; exact h.symm
+    | text t =>
+      simp only at h
+      split at h
+      · simp at h; exact h.symm
+      · split at h
+        · simp at h
+        · simp at h; exact h.symm
+  · intro l l' b k v r h hr
+    simp only [configAssignE] at h
+    cases k with
+    | nil =>
+      simp only at h
+      split at h
+      · simp at h; exact h.1.symm
+      · split at h
+        · simp at h; exact h.1.symm
+        · cases v with
+          | noText => simp at h; exact h.1.symm
+          | text t =>
+            simp only at h
+            split at h
+            · simp at h; exact absurd h.2.symm hr
+            · simp at h; exact h.1.symm
+    | cons e es =>
+      simp only at h
+      split at h
+      · simp at h; exact h.1.symm
+      · cases v with
+        | noText => simp at h; exact h.1.symm
+        | text t =>
+          simp only at h
+          split at h
+          · simp at h; exact absurd h.2.symm hr
+          · simp at h; exact h.1.symm
+  · intro l l' k v h
+    simp only [itemAssignE] at h
+    split at h
+    · simp at h; exact h.symm
+    · split at h
+      · simp at h
+      · simp at h; exact h.symm
+
+example : configAssignE [.mk [115] none []] [[113]] [[108], [109]] .noText = ([.mk [115] none []], .err .BadOperation) := by
+  have h : ∃ r, configAssignE [.mk [115] none []] [[113]] [[108], [109]] .noText = ([.mk [115] none []], r) ∧ r = .err .BadOperation :=
+    ⟨_, by simp [configAssignE], rfl⟩
+  obtain ⟨r, h1, h2⟩ := h
+  rw [h1, h2]
+
+/-- an assignment of a text along a non-empty path whose elements all fit an identifier is accepted, and is the plain
+    assignment -/
+theorem assign_accepted (l : List CNode) (b k : Key) (t : Value) (hk : k ≠ []) (hf : (b ++ k).all elemFits = true) :
+    (∃ l', nodeAssignE l k (.text t) = (l', true) ∧ nodeAssign l k t = some l') ∧
+    (∃ l', configAssignE l b k (.text t) = (l', .ok ()) ∧ configAssign l b k t = .ok l') := by
+  have hfk : k.all elemFits = true := by
+    rw [List.all_append] at hf
+    exact (Bool.and_eq_true _ _ ▸ hf).2
+  obtain ⟨l1, h1⟩ := nodeAssign_some k l t hk
+  obtain ⟨l2, h2⟩ := nodeAssign_some (b ++ k) (ensure l b) t (by simp [hk])
+  refine ⟨⟨l1, by simp [nodeAssignE, hfk, h1], h1⟩, ⟨l2, ?_, ?_⟩⟩
+  · cases k with
+    | nil => exact absurd rfl hk
+    | cons e es => simp [configAssignE, hf, h2]
+  · cases k with
+    | nil => exact absurd rfl hk
+    | cons e es => simp [configAssign, h2]
+
+example : ∃ l', nodeAssignE [] [[97], [98]] (.text [1]) = (l', true) :=
+  let ⟨l', h, _⟩ := (assign_accepted [] [] [[97], [98]] [1] (by simp) (by decide)).1
+  ⟨l', h⟩
 
 end Mpt.C10
